@@ -123,6 +123,18 @@ func main() {
 	case "dump-panics":
 		c := NewCtx(repoDir())
 		c.dumpPanicSources()
+	case "callees":
+		// qvet callees <pkgrel> <func> : print VTA/hybrid callees per call site
+		c := NewCtx(repoDir())
+		g := c.CG()
+		fn := c.SSAFunc(os.Args[2], os.Args[3])
+		if fn == nil {
+			fmt.Println("not found")
+			os.Exit(1)
+		}
+		for _, e := range g.vtaOut[fn] {
+			fmt.Printf("%s -> %s (%s)\n", c.pos(e.Site.Pos()), ssaName(e.Callee), e.Kind)
+		}
 	case "manifest":
 		os.Exit(cmdManifest())
 	case "selftest":
